@@ -349,7 +349,8 @@ package raft
 //@   ensures [term-bump] r.currentTerm != old(r.currentTerm) ==> r.currentTerm == old(r.currentTerm) + 1 && r.votedFor == r.id && (old(r.state) == Candidate || old(singleMember(r)))
 //@   ensures [I7] persTerm == r.currentTerm && persVote == r.votedFor
 //@   ensures [G2] r.currentTerm == old(r.currentTerm) && old(r.votedFor) != "" ==> r.votedFor == old(r.votedFor)
-//@   ensures [leader-entry] r.state == Leader && old(r.state) != Leader ==> old(singleMember(r)) && r.votedFor == r.id && r.currentTerm == old(r.currentTerm) + 1
+//@   ensures [leader-entry] r.state == Leader && old(r.state) != Leader ==> r.votedFor == r.id && r.currentTerm == old(r.currentTerm) + 1
+//@   ensures [leader-entry-single] r.state == Leader && old(r.state) != Leader ==> old(singleMember(r))
 
 //@ func Raft.sendRequestVoteToPeers
 //@   flags inline lockheld
